@@ -565,7 +565,14 @@ def nontrivial(line, out):
 # ---- generators ------------------------------------------------------------------------
 
 CHUNKS = [1, 2, 7, 64, 255, 256, 257]
-IF_RANGES = [None, "", "@etag", "@weak", "@bare", "@date", STALE, "garbage", '"', " "]
+# dates around the file's own Last-Modified: one second / one hour / one year later, one second earlier (an If-Range
+# date is a validator, compared for EQUALITY - a later date does not make the copy current), lower-case, no GMT
+LATER1 = email.utils.formatdate(MTIME + 1, usegmt=True)
+LATER_H = email.utils.formatdate(MTIME + 3600, usegmt=True)
+LATER_Y = email.utils.formatdate(MTIME + 366 * 86400, usegmt=True)
+EARLIER1 = email.utils.formatdate(MTIME - 1, usegmt=True)
+IF_RANGES = [None, "", "@etag", "@weak", "@bare", "@date", STALE, "garbage", '"', " ", LATER1, LATER_H, LATER_Y, EARLIER1,
+             email.utils.formatdate(MTIME, usegmt=True).lower(), email.utils.formatdate(MTIME, usegmt=False)]
 SIDES = [("wsgi", False), ("asgi", False), ("asgi", True)]
 
 
@@ -677,7 +684,7 @@ def cases(rng, tier):
             for h in hdrs:
                 for side, zc in SIDES:
                     method = "GET" if (thorough or rng.random() < 0.85) else "HEAD"
-                    ifr = rng.choice([None, None, None, "@etag", "@date"]) if h else rng.choice(IF_RANGES)
+                    ifr = rng.choice([None, None, None, "@etag", "@date", LATER1, EARLIER1]) if h else rng.choice(IF_RANGES)
                     yield mk(side, zc, method, h, ifr, chunk, size, rng.choice(CTS))
                     if thorough:
                         yield mk(side, zc, "HEAD", h, ifr, chunk, size, CTS[0])
